@@ -82,6 +82,8 @@ def cases(tier, inst):
         yield ("c15", c)
     seen = set()
     for c in c16.cases("quick", inst):          # the flatten space at its quick bound in both tiers
+        if c[0] and c[0][0] == "obj":
+            continue                             # (their worlds are wired up after construction, C16 runs them itself)
         k = c[:3]
         if k not in seen:
             seen.add(k)
